@@ -14,6 +14,15 @@ def check(spec):
     with quiet():
         a = gen.mk(n=spec['n'], seed=spec['seed'], terms=spec['terms'], coeffs=spec['coeffs'], extra=spec['extra'], cell='ortho', kinds=spec.get('kinds'))
         a.cell = CELLS[spec['cell']].copy()
+        if spec.get('on_faces'):
+            # two atoms of the same type exactly one lattice vector apart (one on a face, one on the opposite face): images coincide with originals
+            a.positions = np.array(a.positions, dtype=float)
+            a.positions[0] = np.zeros(3) + 0.25 * a.cell[1]
+            a.positions[-1] = a.positions[0] + a.cell[spec['on_faces'] - 1]
+            a.atom_types = np.array(a.atom_types)
+            a.atom_types[-1] = a.atom_types[0]
+            a.charges[-1] = a.charges[0]
+            a.groups[-1] = a.groups[0]
         va = gen.view(a)
         reps = tuple(spec['reps'])
         try:
@@ -85,7 +94,7 @@ def run(rec, tier, seed):
     rec.rule = ("structures with 1-4 atoms, all term kinds incl. impropers (and single-kind mixtures), with/without coefficient tables and extra fields, "
                 "in 4 cells (orthorhombic, triclinic +/- tilt, arbitrarily oriented) x replication triples incl. unequal factors; atom count, lattice "
                 "offsets each once, identical per-atom data, terms copied per image with type, new cell rows a*A,b*B,c*C, original unmodified, "
-                "1x1x1 identity. distinct = specs")
+                "1x1x1 identity; also same-type atoms on opposite faces (an image coincides with an original atom). distinct = specs")
     reps = [(1, 1, 1), (2, 1, 1), (1, 2, 1), (1, 1, 2), (2, 1, 3), (3, 2, 1), (2, 2, 2)]
     if tier == 'quick':
         reps = reps[:5] + [(2, 2, 2)]
@@ -98,3 +107,10 @@ def run(rec, tier, seed):
                     rec.case(repr(spec), sample=spec if len(rec.samples) < 2 else None)
                     if msg:
                         rec.fail('replicate', 'replicate', "%s on %r" % (msg, spec), spec, 'C12/replicate/post')
+    for cell in CELLS:
+        for axis, r in ((1, (2, 1, 1)), (2, (1, 2, 1)), (3, (2, 1, 2)), (1, (1, 2, 2))):
+            spec = dict(cell=cell, n=3, seed=seed + 7, terms=True, coeffs=True, extra=False, kinds=None, reps=list(r), on_faces=axis)
+            msg = check(spec)
+            rec.case(repr(spec), group='atoms-on-opposite-faces')
+            if msg:
+                rec.fail('replicate', 'replicate', "%s on %r" % (msg, spec), spec, 'C12/replicate/post')
